@@ -200,7 +200,83 @@ type c14Op struct {
 	C int      `json:"c"`
 	F []string `json:"f,omitempty"`
 	Q []int    `json:"q,omitempty"`
-	N string   `json:"n,omitempty"` // class of the op, for coverage / signatures
+	N string   `json:"n,omitempty"` // class of the op, for coverage / signatures (disc: how the connection ends, see c14End*)
+	L string   `json:"l,omitempty"` // disc only: the packet (F, Q) the read loop still processes after the client object was closed
+}
+
+// The ways a connection can end.  In all of them the last thing that happens is the end of
+// Client.readLoop (closeAndDelSession, removeClient); they differ in who closed the client
+// object before that, and in whether the read loop still processed one packet after that close
+// (it looks at the done channel only between two packets, so a packet that was on its way is
+// read and processed; a second one is not).
+const (
+	c14EndPlain  = ""                                          // DISCONNECT / read error / keep-alive: nobody closed the client before
+	c14EndBroker = "client-closed-first:broker-session-delete" // Broker.deleteSession (session deleted through the store / admin API)
+	c14EndClose  = "client-closed-first:close-only"            // Client.close alone (pipeline answered Disconnect, watcher re-sync)
+	c14EndWriter = "client-closed-first:write-loop-teardown"   // Client.writeLoop met a write error: closeAndDelSession
+	c14LateSub   = "late-subscribe"
+	c14LateUnsub = "late-unsubscribe"
+)
+
+// c14EndOp builds the disconnect of client c; sel selects the way the connection ends (a pure
+// function of the position in the history: the generator's random stream is not consumed).
+// The late packet takes its filter from pool (SUBSCRIBE) or from the held filters (UNSUBSCRIBE).
+func c14EndOp(c int, sel int, pool []string, held []string) c14Op {
+	op := c14Op{K: "disc", C: c}
+	if sel < 0 {
+		sel = -sel
+	}
+	src := pool
+	if len(src) == 0 {
+		src = held
+	}
+	sub := func() {
+		if len(src) > 0 {
+			op.L, op.F, op.Q = c14LateSub, []string{src[(sel/9)%len(src)]}, []int{(sel / 9) % 2}
+		}
+	}
+	unsub := func() {
+		if len(held) > 0 {
+			op.L, op.F = c14LateUnsub, []string{held[(sel/9)%len(held)]}
+		} else if len(src) > 0 {
+			op.L, op.F = c14LateUnsub, []string{src[(sel/9)%len(src)]}
+		}
+	}
+	switch sel % 9 {
+	case 0, 1:
+		op.N = c14EndPlain
+	case 2:
+		op.N = c14EndBroker
+	case 3:
+		op.N = c14EndBroker
+		sub()
+	case 4:
+		op.N = c14EndBroker
+		unsub()
+	case 5:
+		op.N = c14EndClose
+	case 6:
+		op.N = c14EndWriter
+	case 7:
+		op.N = c14EndWriter
+		sub()
+	case 8:
+		op.N = c14EndWriter
+		unsub()
+	}
+	return op
+}
+
+// c14EndLabel names the way a connection ended (counters, coverage, signatures).
+func c14EndLabel(op c14Op) string {
+	n, l := op.N, op.L
+	if n == c14EndPlain {
+		n = "client-open-until-read-loop-end"
+	}
+	if l == "" {
+		l = "no-late-packet"
+	}
+	return n + ":" + l
 }
 
 type c14Ref struct {
@@ -474,7 +550,7 @@ func c14Teardown(rng *rand.Rand, ref *c14Ref, nClients int) []c14Op {
 		var op c14Op
 		switch x := rng.Intn(10); {
 		case x < 3:
-			op = c14Op{K: "disc", C: c}
+			op = c14EndOp(c, len(ops)+2*c+3*ref.live(), nil, fs)
 		case x < 5 && len(fs) >= 2:
 			i := rng.Intn(len(fs))
 			j := (i + 1 + rng.Intn(len(fs)-1)) % len(fs)
@@ -543,7 +619,7 @@ func c14GenHistory(rng *rand.Rand, nClients, nOps int) []c14Op {
 			}
 			op = c14Op{K: "unsub-never", C: c, F: []string{f}, N: c14NeverClass(ref, c, f)}
 		case x < 81:
-			op = c14Op{K: "disc", C: c}
+			op = c14EndOp(c, k+4*c+3*len(held)+len(pool), pool, held)
 		case x < 87:
 			g, class := c14Malform(rng, pickFilter())
 			op = c14Op{K: "bad-sub", C: c, F: []string{g}, Q: []int{rng.Intn(2)}, N: class}
